@@ -21,6 +21,12 @@ try:
         pendulum.__version__, os.path.dirname(pendulum.__file__), helpers.precise_diff.__module__))
 except Exception as e:
     problems.append("cannot import pendulum: %r" % (e,))
+# compiled helper backend corresponding to /repo's current Rust sources (cached under /verif/.build)
+sys.path.insert(0, os.path.dirname(os.path.dirname(os.path.abspath(__file__))))
+from tools import build_ext  # noqa: E402
+
+ext = build_ext.ensure(build=True)
+print("compiled backend for the checks: %s (%s)" % (ext, build_ext.reason))
 for p in problems:
     print("SETUP-ERROR:", p)
 sys.exit(1 if problems else 0)
